@@ -537,10 +537,8 @@ RemoveTemplateArg(O, S) ==
     : T \in {T \in TypeNames(S) : OldType(O, T) /\ Len(S[CHOOSE i \in CtorsOfType(S, T) : TRUE].targs) > 0} }
 
 (* one-point changes of a type expression: [te, sub, benign].  benign = "not claimed to      *)
-(* break the wire": a nat argument feeding a parameter without meaning in the callee, or two *)
-(* constants that agree on the callee's mask bits (if the parameter is also an array size    *)
-(* under one of those masks the change may or may not matter).  UnsafeBreaks is asserted for *)
-(* every instance that is not flagged.                                                       *)
+(* break the wire" (changes of nat arguments, see ClaimedArg).  UnsafeBreaks is asserted for *)
+(* every instance that is not flagged; the harness reports how many flagged ones break.      *)
 NextScalar(t) == CASE t = "int" -> "long" [] t = "long" -> "string" [] t = "string" -> "int"
 Alt(te, sub) == [te |-> te, sub |-> sub, benign |-> FALSE]
 TopAlts(S, te) ==
@@ -552,19 +550,19 @@ TopAlts(S, te) ==
         ELSE IF te.bare THEN {Alt([te EXCEPT !.bare = FALSE], "boxedness")}
         ELSE IF Cardinality(CtorsOfType(S, te.t)) = 1 THEN {Alt([te EXCEPT !.bare = TRUE], "boxedness")}
         ELSE {})
-NatAlts(a, vars, U) ==     \* U: the meaning the callee gives to this parameter
-  IF a.k = "n"
-  THEN LET n2 == (a.n + 1) % 4 IN
-       {[a |-> ArgN(n2), sub |-> "natconst", benign |-> U # {SIZE} /\ (BitsOfNum(a.n) \cap U) = (BitsOfNum(n2) \cap U)]}
-  ELSE {[a |-> ArgN(0), sub |-> "natref-to-const", benign |-> U = {}]}
-       \cup {[a |-> ArgR(y), sub |-> "natref", benign |-> U = {}] : y \in vars \ {a.r}}
-ParamUse(S, te, k) == IF te.t = "Tuple" THEN {SIZE} ELSE IF te.t \in Builtins THEN {} ELSE UsedT(S, te.t, k)
+NatAlts(a, vars, claim) ==     \* claim: the change is claimed to break the wire
+  IF a.k = "n" THEN {[a |-> ArgN((a.n + 1) % 4), sub |-> "natconst", benign |-> ~claim]}
+  ELSE {[a |-> ArgN(0), sub |-> "natref-to-const", benign |-> ~claim]}
+       \cup {[a |-> ArgR(y), sub |-> "natref", benign |-> ~claim] : y \in vars \ {a.r}}
+(* only the size of an array of elements that always take bytes is claimed; whether another nat *)
+(* argument matters depends on which masks of the callee are reachable for the values passed    *)
+ClaimedArg(te, k) == te.t = "Tuple" /\ k = 2 /\ te.args[1].k = "ty" /\ te.args[1].ty.t \in Scalars \cup {"Vector"}
 RECURSIVE Variants(_, _, _)
 Variants(S, te, vars) ==
   TopAlts(S, te)
   \cup UNION { IF te.args[k].k = "ty"
                THEN {[te |-> [te EXCEPT !.args[k] = ArgT(v.te)], sub |-> "nested-" \o v.sub, benign |-> v.benign] : v \in Variants(S, te.args[k].ty, vars)}
-               ELSE {[te |-> [te EXCEPT !.args[k] = v.a], sub |-> v.sub, benign |-> v.benign] : v \in NatAlts(te.args[k], vars, ParamUse(S, te, k))}
+               ELSE {[te |-> [te EXCEPT !.args[k] = v.a], sub |-> v.sub, benign |-> v.benign] : v \in NatAlts(te.args[k], vars, ClaimedArg(te, k))}
              : k \in 1..Len(te.args) }
 
 (* the result of a function is always boxed *)
